@@ -344,9 +344,30 @@ def sym_svd(M, full_matrices=True, compute_uv=True, hermitian=False):
     return U, W.view(SA), U.T
 
 
+EIGH_LOG = []
+
+
+def sym_eigh(M, UPLO="L"):
+    """LAPACK eigh by (weak) contract: eigenvalues and eigenvectors are arbitrary reals (fresh symbols).
+    Sound for claims that must hold whatever the decomposition returns (e.g. argument purity)."""
+    M = obj(M)
+    n = M.shape[0]
+    k = len(EIGH_LOG)
+    w = numpy.empty(n, dtype=object)
+    v = numpy.empty((n, n), dtype=object)
+    for i in range(n):
+        w[i] = Sym(z3.Real("eigw!%d[%d]" % (k, i)))
+        for j in range(n):
+            v[i, j] = Sym(z3.Real("eigv!%d[%d,%d]" % (k, i, j)))
+    EIGH_LOG.append((M, w, v))
+    St.notes.add("numpy.linalg.eigh: outputs arbitrary (fresh symbols); only claims independent of the decomposition are decided")
+    return w.view(SA), v.view(SA)
+
+
 class LinAlg:
     """stands for both numpy.linalg and scipy.linalg"""
     LinAlgError = numpy.linalg.LinAlgError
+    eigh = staticmethod(sym_eigh)
     inv = staticmethod(sym_inv)
     svd = staticmethod(sym_svd)
 
@@ -605,6 +626,10 @@ def sym_int_builtin(x=0, *a):
     return _real_int(x, *a)
 
 
+sym_float._np_dtype = "float64"
+sym_int_builtin._np_dtype = "int64"
+
+
 def sym_round(x, nd=None):
     if isinstance(x, Sym):
         r = x.rint()
@@ -729,9 +754,20 @@ class NP:
         return const_arr(a)
 
     def asarray(self, x, dtype=None):
-        if isinstance(x, numpy.ndarray) and dtype is None:
-            return x
+        # symbolic arrays stand for float64 / complex128 arrays: asarray with a matching dtype is the same object
+        if isinstance(x, numpy.ndarray):
+            if dtype is None:
+                return x
+            dt = core._dt(dtype)
+            if x.dtype == object and dt is not None and dt.kind in "fc" and dt.itemsize >= 8:
+                return x
         return self.array(x, dtype)
+
+    def asanyarray(self, x, dtype=None):
+        return self.asarray(x, dtype)
+
+    def ascontiguousarray(self, x, dtype=None):
+        return self.asarray(x, dtype)
 
     def float32(self, x=0.0):
         if isinstance(x, numpy.ndarray):
